@@ -1211,6 +1211,8 @@ static Token *preprocess2(Token *tok) {
     if (equal(tok, "elif")) {
       if (!cond_incl || cond_incl->ctx == IN_ELSE)
         error_tok(start, "stray #elif");
+      if (cond_incl->tok->file != start->file)
+        error_tok(cond_incl->tok, "unterminated conditional directive");
       cond_incl->ctx = IN_ELIF;
 
       if (!cond_incl->included && eval_const_expr(&tok, tok))
@@ -1223,6 +1225,8 @@ static Token *preprocess2(Token *tok) {
     if (equal(tok, "else")) {
       if (!cond_incl || cond_incl->ctx == IN_ELSE)
         error_tok(start, "stray #else");
+      if (cond_incl->tok->file != start->file)
+        error_tok(cond_incl->tok, "unterminated conditional directive");
       cond_incl->ctx = IN_ELSE;
       tok = skip_line(tok->next);
 
@@ -1234,6 +1238,10 @@ static Token *preprocess2(Token *tok) {
     if (equal(tok, "endif")) {
       if (!cond_incl)
         error_tok(start, "stray #endif");
+
+      // A conditional ends in the file that it began in.
+      if (cond_incl->tok->file != start->file)
+        error_tok(cond_incl->tok, "unterminated conditional directive");
       cond_incl = cond_incl->next;
       tok = skip_line(tok->next);
       continue;
